@@ -4,6 +4,8 @@
 (* the order of equally old requests.  One batch, single-state model.        *)
 EXTENDS MC_Discovery, TLC, Json, SequencesExt
 
+CONSTANT GenKinds    \* which kinds of cases this run emits (the engine runs the kinds in parallel)
+
 DepositCase(sc) == [in |-> sc, expected |-> DepositsResult(sc), allowed |-> {}]
 RedemptionCase(sc) ==
     [in |-> [kind |-> sc.kind, events |-> sc.events, limit |-> sc.limit, fault |-> sc.fault,
@@ -13,9 +15,9 @@ RedemptionCase(sc) ==
      allowed |-> { [err |-> r.err, sel |-> r.sel] : r \in AllowedRedemptions(sc) }]
 GenerateCase(sc) == [in |-> sc, expected |-> GenerateResult(sc), allowed |-> {}]
 
-Cases == { DepositCase(sc) : sc \in DepositScenarios }
-         \cup { RedemptionCase(sc) : sc \in RedemptionScenarios }
-         \cup { GenerateCase(sc) : sc \in GeneratorScenarios }
+Cases == (IF "deposits" \in GenKinds THEN { DepositCase(sc) : sc \in DepositScenarios } ELSE {})
+         \cup (IF "redemptions" \in GenKinds THEN { RedemptionCase(sc) : sc \in RedemptionScenarios } ELSE {})
+         \cup (IF "generate" \in GenKinds THEN { GenerateCase(sc) : sc \in GeneratorScenarios } ELSE {})
 
 GInit == /\ in = [kind |-> "generation"] /\ res = Pending /\ done = TRUE
 GNext == FALSE /\ UNCHANGED vars
